@@ -1,6 +1,8 @@
 mod analyzer;
 mod opts;
 mod report;
+#[cfg(solstat_verif)]
+mod verif_fs;
 
 use analyzer::*;
 use opts::Opts;
